@@ -9,9 +9,11 @@ CMD=$(python3 -c "import json;print(json.load(open('$META'))['demo_cmd'])")
 echo "demo_cmd: $CMD"
 git apply --check SEED/$N/patch.diff || { echo "patch does not apply"; exit 2; }
 git apply SEED/$N/patch.diff
-mkdir -p /tmp/aside-$$ ; for f in tests/seed_* examples/seed_*; do [ -e "$f" ] && mv "$f" /tmp/aside-$$/; done
+mkdir -p /tmp/aside-$$/tests /tmp/aside-$$/examples
+# every untracked file under tests/ and examples/ is a demo: keep them out of the pinned-suite run
+for f in $(git ls-files --others --exclude-standard tests examples); do mv "$f" /tmp/aside-$$/$f; done
 cargo test --workspace --no-fail-fast --offline > /tmp/aside-$$/suite.log 2>&1; SUITE=$?
-for f in /tmp/aside-$$/seed_*; do [ -e "$f" ] && case "$f" in *.rs) if grep -q "fn main" $f && [ -d examples ] && ! grep -q "#\[test\]" $f; then mv $f examples/; else mv $f tests/; fi;; esac; done
+for d in tests examples; do for f in /tmp/aside-$$/$d/*; do [ -e "$f" ] && mkdir -p $d && mv "$f" $d/; done; done
 sh -c "$CMD" > /tmp/aside-$$/demo_with.log 2>&1; WITH=$?
 git apply -R SEED/$N/patch.diff
 sh -c "$CMD" > /tmp/aside-$$/demo_without.log 2>&1; WITHOUT=$?
